@@ -40,7 +40,9 @@ class HTMLFileTitleHandler(FileHandler):
     def canhandlerequest(self):
         if FileHandler.canhandlerequest(self):
             mimetype, encoding = mimetypes.guess_type(self.selector)
-            return mimetype == "text/html"
+            # An encoded (compressed) page is not HTML as stored: leave it
+            # to the handlers that deal with encodings.
+            return mimetype == "text/html" and not encoding
         else:
             return False
 
